@@ -201,7 +201,12 @@ def execute(hist):
                         elif route == "iter+attr":
                             job.sp.k = points[j]["k"]
                         else:
-                            job.statepoint = points[j]
+                            given = json.loads(json.dumps(points[j]))
+                            try:
+                                job.statepoint = given
+                            finally:
+                                given.clear()  # what the caller does with its own mapping afterwards must not matter
+                                given["k"] = "changed by the caller"
                         failed = None
                     except DestinationExistsError as e:
                         failed = e
@@ -289,13 +294,13 @@ def execute(hist):
                 bad("observation-differs-from-model", f"fresh-session answers differ from the model: {diff}", want, ra)
         content = read_cache_file(d)
         key = json.dumps({
-            "ws": sorted(idx_of.get(n, n) for n in os.listdir(os.path.join(d, "workspace"))),
-            "file": None if content is None else sorted(idx_of.get(n, n) for n in content),
-            "mem": sorted(idx_of.get(n, n) for n in getattr(session, "_sp_cache", ())),
+            "ws": sorted((idx_of.get(n, n) for n in os.listdir(os.path.join(d, "workspace"))), key=str),
+            "file": None if content is None else sorted((idx_of.get(n, n) for n in content), key=str),
+            "mem": sorted((idx_of.get(n, n) for n in getattr(session, "_sp_cache", ())), key=str),
             "read": getattr(session, "_sp_cache_read", None),
             # entries whose value does not hash to their key (impossible as long as the cache is content-addressed)
-            "mem_inconsistent": sorted(idx_of.get(n, n) for n, v in getattr(session, "_sp_cache", {}).items() if _hash_or_none(v) != n),
-            "file_inconsistent": sorted(idx_of.get(n, n) for n, v in (content or {}).items() if _hash_or_none(v) != n),
+            "mem_inconsistent": sorted((idx_of.get(n, n) for n, v in getattr(session, "_sp_cache", {}).items() if _hash_or_none(v) != n), key=str),
+            "file_inconsistent": sorted((idx_of.get(n, n) for n, v in (content or {}).items() if _hash_or_none(v) != n), key=str),
         }, sort_keys=True, default=str)
     return {"key": key, "enabled": [list(o) for o in ops()], "viol": viol, "n": ncalls,
             "cls": hist[-1][0] if hist else "init", "expected_failure": expected_failure}
